@@ -110,8 +110,17 @@ def statements_and_comments(text: str):
     from vtlengine.AST.ASTComment import create_ast_with_comments
     ast = create_ast_with_comments(text)
     stm = [canon_ast(c) for c in ast.children if not isinstance(c, Comment)]
-    com = sorted(c.value.strip() for c in ast.children if isinstance(c, Comment))
+    com = raw_comments(text)
     return stm, com, ast
+
+
+def raw_comments(text: str) -> List[str]:
+    """the comment tokens of a script straight from the lexer (channel 2), independent of vtlengine.AST.ASTComment: sorted texts"""
+    from vtlengine.AST.Grammar._cpp_parser import parser_lock, vtl_cpp_parser
+    with parser_lock:
+        vtl_cpp_parser.parse(text + "\n")
+        toks = vtl_cpp_parser.get_comments()
+        return sorted(str(t["text"]).rstrip("\r\n").strip() for t in toks)
 
 
 # ------------------------------------------------------------------------------------------------ corpus
@@ -401,7 +410,14 @@ EXPR_TEMPLATES = [
 ]
 SCALAR_TEMPLATES = ["{n1} {op} {n2}", "\"{s}\" || \"{s}\"", "if {n1} {cmp} {n2} then {n1} else null", "nvl(null, {n1})", "{n1}", "null",
                     "not ({n1} {cmp} {n2})", "-{n1}", "round({n1}, 3)"]
-COMMENTS = ["/* block */", "// line", "/* multi\n   line */", "// a \"quoted\" comment", "/* 1.0 */"]
+COMMENTS = ["/* block */", "// line", "/* multi\n   line */", "// a \"quoted\" comment", "/* 1.0 */", "/* two  blanks */", "// tab\there",
+            "/* x := 1; */", "// DS_r <- DS_1;"]
+BLOCK_COMMENTS = ["/* a */", "/* b */", "/* unit: EUR */", "/* c  d */", "/**/", "/* \"q\" */"]
+LINE_COMMENTS = ["// checked", "// e", "// f  g", "//", "// /* nested */"]
+STRINGS = ["a", "b c", "x,y", "é", "it's", " pad ", "a  b", "x   y", "tab\there", " lead", "trail ", "two\nlines", "  ", "a \t b", "(p) [q] {r}",
+           "semi;colon", ":= <-", "//not a comment", "/*neither*/"]
+ERRORCODES = ['"E1"', "null", "5", '"x y"', '"E  1"', '"tab\there"', '" lead"', '"trail "', '"a;b"']
+ERRORLEVELS = ["1", "null", '"W"', "2.5", "3", '"W  2"', '"L\t1"', '" w "']
 SAFE_RESERVED = ["calc", "filter", "keep", "drop", "rename", "sum", "date", "time", "number", "string", "in", "and", "or", "if",
                  "value", "rule", "condition", "result", "all", "data", "points", "by", "group", "first", "last", "max", "true", "null"]
 
@@ -434,8 +450,8 @@ def gen_script_case(rng, wide_literals=False, with_defs=True, with_comments=True
     def fill(t):
         return t.format(op=rng.choice(["+", "-", "*"]), cmp=rng.choice([">", "<", ">=", "<=", "=", "<>"]),
                         n1=gen_literal_text(rng, wide_literals), n2=gen_literal_text(rng, wide_literals),
-                        s=rng.choice(["a", "b c", "x,y", "é", "it's", " pad "]), rw=rng.choice(SAFE_RESERVED),
-                        ec=rng.choice(['"E1"', "null", "5", '"x y"']), el=rng.choice(["1", "null", '"W"', "2.5", "3"]),
+                        s=rng.choice(STRINGS), rw=rng.choice(SAFE_RESERVED),
+                        ec=rng.choice(ERRORCODES), el=rng.choice(ERRORLEVELS),
                         out=rng.choice(["", " invalid", " all", " all_measures"]),
                         mode=rng.choice(["", " non_null", " non_zero dataset", " always_null dataset all", " partial_null"]),
                         r="{r}", a="{a}")
@@ -467,10 +483,24 @@ def gen_script_case(rng, wide_literals=False, with_defs=True, with_comments=True
     if with_comments:
         out = []
         for p in parts:
-            if rng.random() < 0.3:
-                out.append(rng.choice(COMMENTS))
-            out.append(p)
+            r = rng.random()
+            if r < 0.25:
+                out.append(rng.choice(COMMENTS))                     # on its own line(s) before the statement
+                out.append(p)
+            elif r < 0.45:                                          # several comments starting on the statement's line
+                out.append(f"{rng.choice(BLOCK_COMMENTS)} {p} {rng.choice(LINE_COMMENTS)}")
+            elif r < 0.55:
+                out.append(f"{rng.choice(BLOCK_COMMENTS)} {rng.choice(BLOCK_COMMENTS)} {p} {rng.choice(BLOCK_COMMENTS)} {rng.choice(LINE_COMMENTS)}")
+            elif r < 0.65 and " := " in p and not p.startswith("define"):
+                i = p.index(" := ") + 4                              # inside the statement
+                out.append(p[:i] + rng.choice(BLOCK_COMMENTS) + " " + p[i:])
+            elif r < 0.75 and p.startswith("define") and " is" in p:
+                i = p.index(" is") + 3                               # inside a ruleset / operator definition
+                out.append(p[:i] + " " + rng.choice(BLOCK_COMMENTS) + " " + rng.choice(LINE_COMMENTS) + "\n" + p[i:])
+            else:
+                out.append(p)
         if rng.random() < 0.3:
             out.append(rng.choice(COMMENTS))
         parts = out
+        hist["comments"] = hist.get("comments", 0) + sum(x.count("/*") + x.count("//") for x in parts)
     return {"script": "\n".join(parts) + "\n", "structs": structs, "data": data, "hist": hist}
